@@ -1398,13 +1398,15 @@ func presizedAppends(pk *packages.Package, files []*ast.File, fd *ast.FuncDecl, 
 	// fields of composite literals / field assignments whose methods append to the field
 	ast.Inspect(fd.Body, func(n ast.Node) bool {
 		switch x := n.(type) {
-		case *ast.KeyValueExpr:
-			if isLenMake(x.Value) && appendedFields[core.ExprStr(x.Key)] {
-				out = append(out, x)
+		case *ast.CompositeLit:
+			for _, el := range x.Elts {
+				if kv, ok := el.(*ast.KeyValueExpr); ok && isLenMake(kv.Value) && appendedFields[ownerFieldKey(pk, x, core.ExprStr(kv.Key))] {
+					out = append(out, kv)
+				}
 			}
 		case *ast.AssignStmt:
 			if len(x.Lhs) == 1 && len(x.Rhs) == 1 && isLenMake(x.Rhs[0]) {
-				if sel, ok := x.Lhs[0].(*ast.SelectorExpr); ok && appendedFields[sel.Sel.Name] {
+				if sel, ok := x.Lhs[0].(*ast.SelectorExpr); ok && appendedFields[ownerFieldKey(pk, sel.X, sel.Sel.Name)] {
 					out = append(out, x)
 				}
 			}
@@ -1415,25 +1417,72 @@ func presizedAppends(pk *packages.Package, files []*ast.File, fd *ast.FuncDecl, 
 }
 
 // appendedFieldNames: names of struct fields that some function grows with `x.f = append(x.f, ...)`.
-func appendedFieldNames(files []*ast.File) map[string]bool {
+func appendedFieldNames(pk *packages.Package, files []*ast.File) map[string]bool {
 	out := map[string]bool{}
 	for _, f := range files {
-		ast.Inspect(f, func(n ast.Node) bool {
-			as, ok := n.(*ast.AssignStmt)
-			if !ok || len(as.Lhs) != 1 || len(as.Rhs) != 1 {
+		for _, d := range f.Decls {
+			fd, ok := d.(*ast.FuncDecl)
+			if !ok || fd.Body == nil {
+				continue
+			}
+			// the objects handed in: receiver and parameters. An append to a field of a value that is
+			// local to the function cannot reach an object created elsewhere.
+			handed := map[types.Object]bool{}
+			lists := []*ast.FieldList{fd.Recv, fd.Type.Params}
+			for _, fl := range lists {
+				if fl == nil {
+					continue
+				}
+				for _, fld := range fl.List {
+					for _, nm := range fld.Names {
+						if o := pk.TypesInfo.ObjectOf(nm); o != nil {
+							handed[o] = true
+						}
+					}
+				}
+			}
+			ast.Inspect(fd.Body, func(n ast.Node) bool {
+				as, ok := n.(*ast.AssignStmt)
+				if !ok || len(as.Lhs) != 1 || len(as.Rhs) != 1 {
+					return true
+				}
+				sel, ok := as.Lhs[0].(*ast.SelectorExpr)
+				if !ok {
+					return true
+				}
+				if call, ok := as.Rhs[0].(*ast.CallExpr); ok && core.ExprStr(call.Fun) == "append" && len(call.Args) > 0 && core.ExprStr(call.Args[0]) == core.ExprStr(as.Lhs[0]) {
+					root := sel.X
+					for {
+						if s2, ok := ast.Unparen(root).(*ast.SelectorExpr); ok {
+							root = s2.X
+							continue
+						}
+						break
+					}
+					if id, ok := ast.Unparen(root).(*ast.Ident); ok && handed[pk.TypesInfo.ObjectOf(id)] {
+						out[ownerFieldKey(pk, sel.X, sel.Sel.Name)] = true
+					}
+				}
 				return true
-			}
-			sel, ok := as.Lhs[0].(*ast.SelectorExpr)
-			if !ok {
-				return true
-			}
-			if call, ok := as.Rhs[0].(*ast.CallExpr); ok && core.ExprStr(call.Fun) == "append" && len(call.Args) > 0 && core.ExprStr(call.Args[0]) == core.ExprStr(as.Lhs[0]) {
-				out[sel.Sel.Name] = true
-			}
-			return true
-		})
+			})
+		}
 	}
 	return out
+}
+
+// ownerFieldKey: "<named type of owner>.<field>".
+func ownerFieldKey(pk *packages.Package, owner ast.Expr, field string) string {
+	t := pk.TypesInfo.TypeOf(owner)
+	if t == nil {
+		return "?." + field
+	}
+	if p, ok := t.Underlying().(*types.Pointer); ok {
+		t = p.Elem()
+	}
+	if n, ok := t.(*types.Named); ok {
+		return n.Obj().Name() + "." + field
+	}
+	return "?." + field
 }
 
 // presizeRule: a slice that is filled by append starts empty.
@@ -1446,7 +1495,7 @@ func presizeRule(R string) RuleFunc {
 			c.Bad(R, "positive-example", "-", "built-in example", "does not type-check: "+err.Error())
 			return
 		}
-		pf := appendedFieldNames(pp.Syntax)
+		pf := appendedFieldNames(pp, pp.Syntax)
 		hits := map[string]int{}
 		for _, d := range pp.Syntax[0].Decls {
 			if fd, ok := d.(*ast.FuncDecl); ok && fd.Body != nil {
@@ -1464,7 +1513,7 @@ func presizeRule(R string) RuleFunc {
 			funcs++
 			af, ok := byPkg[d.Pkg]
 			if !ok {
-				af = appendedFieldNames(d.Pkg.Syntax)
+				af = appendedFieldNames(d.Pkg, d.Pkg.Syntax)
 				byPkg[d.Pkg] = af
 			}
 			for _, nd := range presizedAppends(d.Pkg, d.Pkg.Syntax, d.Decl, af) {
